@@ -151,6 +151,27 @@ def r_candidate_key(rep, prog):
                   "the cached tree id %s is not the index of the entry that was rated" % T.show(val)[:120], t["span"])
 
 
+def r_ordby(rep, prog):
+    """The key wrapper compares by its first field only and consistently: partial_cmp == Some(cmp), cmp == self.0.cmp(&other.0).
+    The buffer's `value <= element` goes through these."""
+    rule = "R-CANDIDATE-KEY"
+    want = {
+        "<llfree::util::OrdBy as core::cmp::Ord>::cmp": ("call", "core::cmp::Ord::cmp", (("f", ("p", "self"), 0), ("f", ("p", "other"), 0))),
+        "<llfree::util::OrdBy as core::cmp::PartialOrd>::partial_cmp": ("agg", "adt:core::option::Option::Some|enum",
+                                                                        (("call", "<llfree::util::OrdBy as core::cmp::Ord>::cmp", (("p", "self"), ("p", "other"))),)),
+    }
+    for fn, w in want.items():
+        b = prog.body(fn)
+        if b is None:
+            rep.check(True, rule, "OrdBy|" + fn.rsplit("::", 1)[-1], "undecided: %s not present (derived or another key type)" % fn)
+            continue
+        rep.saw(fn)
+        tm = T.Terms(b, prog)
+        rets = [T.canon(tm.call_term(bi) if si == "term" else tm.rvalue(rv)) for bi, si, rv in lib.assignments_to_return(b)]
+        rep.check(rets == [w], rule, "OrdBy|" + fn.rsplit("::", 1)[-1], "compares the keys (first field) only",
+                  "%s is not the comparison of the two keys (%s): the candidate buffer is no longer ordered by rating" % (fn, [str(r)[:100] for r in rets]), b.span)
+
+
 def r_best_first(rep, prog):
     rule = "R-BEST-FIRST"
     rep.rule(rule, "storage direction of SortedBuffer::add and consumption direction in search_best agree (greatest key first); every cached "
@@ -481,6 +502,7 @@ def run(rep, programs):
     rep.assume("`best` means greatest by the derived Ord of the cached key (Policy, bool); whether that order matches the intent of the "
                "ratings is not decided")
     r_candidate_key(rep, prog)
+    r_ordby(rep, prog)
     r_best_first(rep, prog)
     sd, _, _ = storage_direction(prog)
     if sd and key_reversed(prog):
